@@ -41,6 +41,11 @@ pub struct Unit {
     /// a syntax error that makes the parser read to the end of the input
     #[serde(default)]
     pub to_eof: bool,
+    /// the unit closes the shell's standard error (`exec 2>&-`): from here on
+    /// nothing the verbose option echoes can be written, and every line must
+    /// still be executed
+    #[serde(default)]
+    pub closes_stderr: bool,
     /// bytes the unit reads through descriptor 0 while that descriptor is
     /// redirected elsewhere (they are not input of the shell)
     #[serde(default)]
@@ -734,6 +739,22 @@ pub fn generate(rng: &mut Rng, tier: Tier) -> Case {
         }
         _ => {}
     }
+    // now and then the shell's standard error is closed before the verbose
+    // option is switched on: the echo cannot be written, the lines still run
+    if !units.iter().any(|u| u.error)
+        && let Some(at) = units.iter().position(|u| u.verbose == Some(true))
+        && g.rng.bool()
+    {
+        units.insert(
+            at,
+            Unit {
+                lines: vec!["exec 2>&-".into()],
+                status: Some(0),
+                closes_stderr: true,
+                ..Default::default()
+            },
+        );
+    }
     let no_final_newline =
         g.rng.below(6) == 0
             && !units.last().is_some_and(|u| {
@@ -787,6 +808,7 @@ pub fn expect(c: &Case) -> Expect {
     let mut any_verbose = false;
     let mut echoed = String::new();
     let mut eof_reader = false;
+    let mut stderr_closed = false;
     for u in &c.units {
         let mut ends = Vec::new();
         for (i, l) in u.lines.iter().enumerate() {
@@ -796,7 +818,7 @@ pub fn expect(c: &Case) -> Expect {
             // lines are echoed when the parser reads them: command lines while
             // the shell is running, and everything up to the end of the input
             // once the parser is looking for a closing quote or parenthesis
-            if verbose && ((!done && !u.data.contains(&i)) || eof_reader) {
+            if verbose && !stderr_closed && ((!done && !u.data.contains(&i)) || eof_reader) {
                 echoed.push_str(l);
                 echoed.push('\n');
             }
@@ -807,6 +829,9 @@ pub fn expect(c: &Case) -> Expect {
         if let Some(v) = u.verbose {
             verbose = v;
             any_verbose |= v;
+        }
+        if u.closes_stderr {
+            stderr_closed = true;
         }
         if u.to_eof {
             eof_reader = true;
